@@ -20,6 +20,9 @@ type part struct {
 var parts = map[string]part{
 	"C19":      {"C19", tracechk.C19},
 	"C16sched": {"C16", sched.C16sched},
+	"C15watch": {"C15", tracechk.C15watch},
+	"C16watch": {"C16", tracechk.C16watch},
+	"C02watch": {"C02", tracechk.C02watch},
 }
 
 func main() {
@@ -53,7 +56,13 @@ func main() {
 		case "C19":
 			ok, msg = tracechk.ReplayC19(doc.Replay)
 		case "C16":
-			ok, msg = sched.ReplayC16(sched.Case(doc.Replay))
+			if doc.Replay["op"] == "watch" {
+				ok, msg = tracechk.ReplayWatch(doc.Replay)
+			} else {
+				ok, msg = sched.ReplayC16(sched.Case(doc.Replay))
+			}
+		case "C15", "C02":
+			ok, msg = tracechk.ReplayWatch(doc.Replay)
 		default:
 			fmt.Fprintln(os.Stderr, "no replayer for", os.Args[2])
 			os.Exit(2)
